@@ -1,6 +1,7 @@
 """C05 — rankings do not depend on how the decision problem is written down."""
 from fractions import Fraction
 
+import math
 import numpy as np
 
 from .. import gen
@@ -72,7 +73,11 @@ def gen_case(rng, name):
                 continue     # two distinct alternatives: every pair of criteria is perfectly correlated, CRITIC is 0/0
                              # there (the recorded finding of C13) - not a problem statement either
             if cfg["cls"] == "MinMaxScaler":
-                cfg["params"]["criteria_range"] = [1.0, 2.0] if name in ("fmf", "multimoora") else cfg["params"]["criteria_range"]
+                # weights scaled onto a range that ends at 0 give a criterion the weight 0 (or 2e-16, depending on the
+                # presentation): with what is left constant, TOPSIS and friends are 0/0 - not a problem statement
+                on_w = cfg["params"].get("target") in ("weights", "both")
+                cfg["params"]["criteria_range"] = [1.0, 2.0] if (name in ("fmf", "multimoora") or on_w) \
+                    else cfg["params"]["criteria_range"]
             steps.append(cfg)
             if cfg["cls"] in ("MinMaxScaler", "StandarScaler", "NegateMinimize") and cfg["params"].get("target") != "weights":
                 positive = False
@@ -192,7 +197,9 @@ def compare(ctx, c, o1, o2, back):
         # inexactly (the logarithmic fmf score always; ratio / reference point outside the exact regime):
         # only those cases are skipped - an exact tie in an exactly computed component must be handled
         # the same way in both presentations
-        exact_lin = (not c["steps"]) and c04.is_exact(c)
+        # (... and a multiplier that is not a power of two rounds the second presentation's weights)
+        m_, e_ = math.frexp(c["mult"])
+        exact_lin = (not c["steps"]) and c04.is_exact(c) and m_ == 0.5
         comp_scores = [(o1["extra"]["ratio_score"], exact_lin), (o1["extra"]["refpoint_score"], exact_lin),
                        (o1["extra"]["fmf_score"], False)]
         rows = c["matrix"]
